@@ -4,6 +4,14 @@
 R=${1:-/repo}
 cd "$R" || exit 2
 unset GOFLAGS
+# the tree must build (packages without tests are otherwise invisible to the suite)
+if ! go build ./pkg/... >/dev/null 2>/tmp/baseline-build.$$; then
+  grep -v "warning\|note:" /tmp/baseline-build.$$ | grep "\.go:" | head -5
+  echo "baseline: BUILD FAILED"
+  rm -f /tmp/baseline-build.$$
+  exit 1
+fi
+rm -f /tmp/baseline-build.$$
 out=$(mktemp)
 export GOPROXY=off GOSUMDB=off GOTOOLCHAIN=local
 go test -json -vet=off -count=1 -timeout 25m ./... > "$out" 2>/dev/null
